@@ -24,6 +24,9 @@ def one(name):
         capture_output=True, text=True,
     )
     verdicts = [l for l in r.stdout.splitlines() if l[:3] in checks and ":" in l]
+    if not verdicts:
+        # nothing ran: most likely the patch no longer applies to /repo HEAD (a fix touched the same lines) - rebase it
+        return name, ["PATCH DID NOT APPLY / NOTHING RAN"], (r.stdout + r.stderr)[-600:]
     return name, verdicts, r.stdout[-600:] if r.returncode not in (0,) else ""
 
 
